@@ -165,14 +165,13 @@ func (p *LookupProtocolV1) UNREGISTER(client *ClientV1, reader *bufio.Reader, pa
 
 	if channel != "" {
 		key := Registration{"channel", topic, channel}
-		removed, left := p.nsqlookupd.DB.RemoveProducer(key, client.peerInfo.id)
+		// for ephemeral channels, remove the channel as well if it has no producers
+		// (atomically: a concurrent REGISTER must not be deleted with the key)
+		removed, _ := p.nsqlookupd.DB.RemoveProducerAndPrune(key, client.peerInfo.id,
+			strings.HasSuffix(channel, "#ephemeral"))
 		if removed {
 			p.nsqlookupd.logf(LOG_INFO, "DB: client(%s) UNREGISTER category:%s key:%s subkey:%s",
 				client, "channel", topic, channel)
-		}
-		// for ephemeral channels, remove the channel as well if it has no producers
-		if left == 0 && strings.HasSuffix(channel, "#ephemeral") {
-			p.nsqlookupd.DB.RemoveRegistration(key)
 		}
 	} else {
 		// no channel was specified so this is a topic unregistration
@@ -189,13 +188,11 @@ func (p *LookupProtocolV1) UNREGISTER(client *ClientV1, reader *bufio.Reader, pa
 		}
 
 		key := Registration{"topic", topic, ""}
-		removed, left := p.nsqlookupd.DB.RemoveProducer(key, client.peerInfo.id)
+		removed, _ := p.nsqlookupd.DB.RemoveProducerAndPrune(key, client.peerInfo.id,
+			strings.HasSuffix(topic, "#ephemeral"))
 		if removed {
 			p.nsqlookupd.logf(LOG_INFO, "DB: client(%s) UNREGISTER category:%s key:%s subkey:%s",
 				client, "topic", topic, "")
-		}
-		if left == 0 && strings.HasSuffix(topic, "#ephemeral") {
-			p.nsqlookupd.DB.RemoveRegistration(key)
 		}
 	}
 
